@@ -10,6 +10,7 @@ from gpytorch import settings as S
 
 from pbt import gpmodel as G
 from pbt import kern
+from pbt import mtmodel as MT
 from pbt.core import Ctx, Discard, PropertySpec, Subcheck
 
 T = torch.tensor
@@ -19,6 +20,8 @@ T = torch.tensor
 def posterior_case(draw, **kw):
     case = draw(G.exact_case(**kw))
     case["settings"] = draw(G.pred_settings(case["n"] + case["ns"]))
+    if G.uses_lanczos(case["settings"]) and case["n"] < 3:
+        case["settings"]["max_chol"] = 800  # the dependency's Lanczos needs at least a 3x3 matrix
     case["prior_mode"] = draw(st.integers(0, 11)) == 0
     case["second_call"] = draw(st.integers(0, 3)) == 0  # predict twice (second call served from the caches)
     case["torch_seed"] = draw(st.integers(0, 2**31 - 1))  # Lanczos start vectors are drawn by the library
@@ -111,6 +114,74 @@ def run_posterior(case, ctx: Ctx):
               *{f"leaf={l['k']}" for l in kern.leaves(case["kernel"])})
 
 
+# ---------------------------------------------------------------------------------------------------
+# Kronecker multitask models
+# ---------------------------------------------------------------------------------------------------
+@st.composite
+def multitask_posterior_case(draw):
+    case = draw(MT.multitask_case())
+    case["settings"] = draw(G.pred_settings((case["n"] + case["ns"]) * case["t"]))
+    if case["settings"]["max_chol"] == 0 and draw(st.integers(0, 9)) != 0:
+        case["settings"]["max_chol"] = 800  # the cell above max_cholesky_size is a known dependency finding: keep it thin
+    case["torch_seed"] = draw(st.integers(0, 2**31 - 1))
+    return case
+
+
+def run_multitask(case, ctx: Ctx):
+    s = case["settings"]
+    t, n, ns = case["t"], case["n"], case["ns"]
+    big = n * t > s["max_chol"]
+    ctx.cls = (f"multitask|{MT.cell(case)}|tb{case['tb']}|{'iter' if G.is_iterative(s) else 'chol'}|fpv{int(s['fpv'])}"
+               f"|{'gt_maxchol' if big else 'le_maxchol'}")
+    X, y, Xs = T(case["X"]), T(case["y"]), T(case["Xs"])
+    with ctx.observing("build"):
+        model, lik = MT.build_multitask(case)
+        model.eval()
+        lik.eval()
+    with ctx.observing("own_prior"):
+        Kxx, Kxs, Kss, mx, ms = G.own_prior_blocks(model, X, Xs)
+        mx, ms = mx.reshape(*mx.shape[:-2], -1), ms.reshape(*ms.shape[:-2], -1)
+    bshape = torch.Size(case["tb"])
+    kmax = 1e5 if G.is_iterative(s) else 1e8
+    mean_w, cov_w, kappa, A = G.dense_conditional(Kxx, Kxs, Kss, mx, ms, None, y.reshape(-1), kappa_max=kmax, smat=MT.ref_noise(case, n))
+    if G.uses_lanczos(s):
+        ev = torch.linalg.eigvalsh(A)
+        gap = float(((ev[..., 1:] - ev[..., :-1]) / ev[..., -1:]).min()) if A.shape[-1] > 1 else 1.0
+        if gap < 1e-3 or kappa > 1e4:
+            raise Discard("lanczos path: clustered spectrum (relative gap < 1e-3) or kappa > 1e4")
+        rtol = atol = 2e-3
+    elif G.is_iterative(s):
+        G.cg_calibration(A, torch.cat([(y.reshape(-1) - mx).expand(*A.shape[:-1]).unsqueeze(-1), Kxs.expand(*A.shape[:-2], n * t, ns * t)], -1), s)
+        rtol, atol = 1e-4, 1e-5
+    else:
+        rtol = atol = G.chol_tol(kappa, kern.smooth_at_zero(case["kernel"]))
+    scale = max(1.0, float(cov_w.abs().max()), float(mean_w.abs().max()))
+    with ctx.observing("predict"):
+        torch.manual_seed(case["torch_seed"])
+        with G.settings_ctx(s), torch.no_grad():
+            out = model(Xs)
+            gm = out.mean
+            gc = out.covariance_matrix
+            pred = lik(out)
+            pmn, pcv = pred.mean, pred.covariance_matrix
+    ctx.close("mean", gm, mean_w.reshape(*bshape, ns, t), rtol=rtol, atol=atol, scale=scale)
+    noise_w = MT.ref_noise(case, ns).expand(*bshape, ns * t, ns * t)
+    ctx.close("likelihood.mean", pmn, gm, rtol=0, atol=0)
+    if s["skip_var"]:
+        ctx.close("skipped.cov_is_zero", gc, torch.zeros(*bshape, ns * t, ns * t), rtol=0, atol=0)
+        try:
+            pcv = pcv.expand(*bshape, ns * t, ns * t)
+        except RuntimeError:
+            pass
+        ctx.close("likelihood.noise", pcv, noise_w, rtol=1e-9, atol=1e-11)
+    else:
+        ctx.close("cov", gc, cov_w.expand(*bshape, ns * t, ns * t), rtol=rtol, atol=atol, scale=scale)
+        ctx.close("likelihood.noise", pcv - gc, noise_w, rtol=1e-9, atol=1e-9, scale=scale)
+    ctx.set_nontrivial(n >= 2 and ns >= 1)
+    ctx.label("multitask", f"t={t}", f"krank={case['task']['rank']}", f"lrank={case['lik']['rank']}", f"global={case['lik']['global']}",
+              f"task={case['lik']['task']}", f"iter={G.is_iterative(s)}", f"fpv={int(s['fpv'])}", f"tb={case['tb']}", MT.cell(case))
+
+
 RULE = ("exact-GP recipe (mean in {Zero, Constant, Linear}; kernel expression tree of depth <= 2 over 18 kernel variants with ARD / "
         "active_dims / batch; likelihood in {Gaussian, FixedNoise, FixedNoise + learned}) x data (n <= 6, n* <= 4, d <= 3; model / train / "
         "test batch shapes from the broadcastable patterns) x one point of the settings product (lazy, eager threshold at/below/above, "
@@ -120,6 +191,7 @@ RULE = ("exact-GP recipe (mean in {Zero, Constant, Linear}; kernel expression tr
 
 SUBCHECKS = [
     Subcheck("exact.posterior", run_posterior, strategy=posterior_case, quick=1600, thorough=50000, min_shard=50),
+    Subcheck("exact.multitask", run_multitask, strategy=multitask_posterior_case, quick=600, thorough=20000, min_shard=40),
 ]
 
 SPEC = PropertySpec(
